@@ -258,6 +258,25 @@ func runC04(c *Ctx, _ []string) {
 		if shape == "exe+text" {
 			data = append(mkData("exe", int(cfg.Block), dseed), mkData("text", max(0, size-int(cfg.Block)), dseed)...)
 			size = len(data)
+		} else if i%2 == 1 {
+			// a different shape per block, shorter last block: per-slot state (buffers that grew,
+			// cached contexts) must not leak from one block to the next one in the same slot
+			shape = "mixed"
+			rr := NewRng(dseed)
+			for len(data) < size {
+				sh := dataShapes[rr.Intn(len(dataShapes))]
+				if rr.Intn(3) == 0 {
+					sh = []string{"text", "accent", "random"}[rr.Intn(3)]
+				}
+				k := int(cfg.Block)
+				if size-len(data) < k {
+					k = size - len(data)
+				}
+				data = append(data, genData(rr, sh, k)...)
+			}
+			if i%4 == 1 {
+				cfg.Transform = []string{"TEXT", "TEXT+UTF", "TEXT+RLT", "UTF", "LZ", "ROLZ", "EXE+TEXT", "RLT"}[r.Intn(8)]
+			}
 		} else {
 			data = mkData(shape, size, dseed)
 		}
@@ -312,6 +331,45 @@ func runC04(c *Ctx, _ []string) {
 		if len(c.Stats["samples"].([]any)) < 3 {
 			desc["variants_compared"] = variants
 			c.Stats["samples"] = append(c.Stats["samples"].([]any), desc)
+		}
+	}
+	// directed family "slot history": full blocks of one shape followed by a shorter last block
+	// of another shape; whether the last block lands in a fresh or in a used task slot depends on
+	// the job count, and must not matter
+	pairs := [][2]string{{"text", "accent"}, {"text", "random"}, {"runs", "random"}, {"dna", "text"}, {"utf8", "accent"}, {"exe", "text"}, {"zeros", "text"}, {"random", "text"}, {"b64", "accent"}}
+	trs := []string{"TEXT", "TEXT+UTF", "UTF", "RLT", "LZ", "LZP", "ROLZ", "BWT", "EXE", "PACK", "TEXT+RLT+LZ", "MM", "ZRLT", "SRT"}
+	for k := 0; k < 16*c.Scale; k++ {
+		pr := pairs[r.Intn(len(pairs))]
+		if k < len(pairs) {
+			pr = pairs[k]
+		}
+		tr := trs[r.Intn(len(trs))]
+		en := fastEntropy[r.Intn(len(fastEntropy))]
+		if k < len(pairs) {
+			tr = "TEXT"
+			en = []string{"NONE", "HUFFMAN", "ANS0", "FPAQ"}[k%4]
+		}
+		bs := []uint{4096, 16384, 65536}[r.Intn(3)]
+		cfg := sCfg{tr, en, bs, 1, 32, 0, false}
+		last := int(bs)/3 + r.Intn(int(bs)/3)
+		dseed := r.U64()
+		data := append(mkData(pr[0], r.Range(1, 3)*int(bs), dseed), mkData(pr[1], last, dseed+1)...)
+		ref, stage, err := compress(cfg, data, nil)
+		if stage != "" || err != nil {
+			continue
+		}
+		nontrivial++
+		for _, j := range []uint{2, 3, 4, 5} {
+			c2 := cfg
+			c2.Jobs = j
+			out, _, err := compress(c2, data, nil)
+			c.Count("evaluations", 1)
+			c.Hist("variant", "slot-history")
+			if err != nil || !bytes.Equal(out, ref) {
+				c.Violation(map[string]any{"what": fmt.Sprintf("output with %d jobs differs from the jobs=1 reference: %s vs %s err=%v", j, short(out), short(ref), err),
+					"cfg": cfg.String(), "data": fmt.Sprintf("full blocks of %q then %d bytes of %q, dataseed %d", pr[0], last, pr[1], dseed)})
+				break
+			}
 		}
 	}
 	c.Stats["distinct_nontrivial"] = nontrivial
